@@ -28,7 +28,7 @@ Theorem C16_value_names_documented :
   map format_name all_formats = documented_format_names /\
   map list_style_name all_list_styles = documented_list_style_names /\
   (forall e, In e all_extensions).
-Proof. exact (conj extension_names_documented (conj format_names_documented (conj list_style_names_documented all_extensions_complete))). Qed.
+Proof. exact value_names_documented. Qed.
 Print Assumptions C16_value_names_documented.
 
 Theorem C16_flags_documented :
@@ -53,13 +53,13 @@ Print Assumptions C16_gfm_sets_seven.
    installs the syntax highlighter, which is HTML-only *)
 Theorem C16_inplace_forces_commonmark : forall c, c_inplace c = true ->
   formatter_of c = R_commonmark /\ installs_highlighter c = false.
-Proof. exact (fun c H => conj (inplace_commonmark c H) (inplace_no_highlighter c H)). Qed.
+Proof. exact inplace_forces. Qed.
 Print Assumptions C16_inplace_forces_commonmark.
 
 Theorem C16_plan_documented : forall c,
   formatter_of c = documented_renderer c /\ sink_of c = documented_sink c /\
   highlighter_of c = documented_highlighter c /\ (installs_highlighter c = true <-> formatter_of c = R_html).
-Proof. exact (fun c => conj (renderer_documented c) (conj (sink_documented c) (conj (highlighter_documented c) (highlighter_html_only c)))). Qed.
+Proof. exact plan_documented. Qed.
 Print Assumptions C16_plan_documented.
 
 Theorem C16_inplace_precheck : forall c,
@@ -88,7 +88,7 @@ Theorem C16_config_untouched : forall real cf src,
   cli_with_config_model real config_none_word src = Ok (Parse_once real) /\
   cli_with_config_model real cf Cfg_unreadable = Ok (Parse_once real) /\
   (bytes_eqb cf config_none_word = false -> cli_with_config_model real cf Cfg_bad_quotes = Ok (Exit_with 2%Z)).
-Proof. exact (fun real cf src => conj (config_model_none real src) (conj (config_model_unreadable real cf) (config_model_bad_quotes real cf))). Qed.
+Proof. exact config_untouched. Qed.
 Print Assumptions C16_config_untouched.
 
 (* the splice for ARBITRARY argv (file names need not be UTF-8) would have to keep every argument in
@@ -97,10 +97,7 @@ Definition C16_config_splice_full_statement : Prop :=
   forall (real : list (option word)) (config : list word), exists out, splice real config = Ok out /\ List.length out = List.length real + List.length config.
 
 Theorem C16_config_splice_refuted : ~ C16_config_splice_full_statement.
-Proof.
-  intro H. destruct (H [Some (w "comrak"); None; Some (w "b.md")] []) as [out [E _]].
-  destruct splice_nonutf8_panics as [site P]. rewrite P in E. discriminate E.
-Qed.
+Proof. exact splice_full_refuted. Qed.
 Print Assumptions C16_config_splice_refuted.
 
 Theorem C16_config_splice_drops_argument :
@@ -135,7 +132,7 @@ Proof. exact merge_ok_iff_disjoint. Qed.
 Print Assumptions C16_merge_respects_doc_partial.
 
 Theorem C16_merge_refuted : ~ C16_merge_full_statement.
-Proof. intro H. specialize (H ["gfm"] ["gfm"] eq_refl eq_refl). discriminate H. Qed.
+Proof. exact merge_full_refuted. Qed.
 Print Assumptions C16_merge_refuted.
 
 (* non-vacuity: comrak --gfm -e superscript,footnotes --width 72 --header-ids p- *)
